@@ -213,12 +213,13 @@ func c01WUnit(p c01WParams) *explore.Unit {
 				return &explore.Finding{Class: "request-executed-by-wrong-region", Msg: fmt.Sprintf("%v\n%s", e, p)}
 			}
 		}
-		if scans2 != wantScans2 {
-			cls := "known-region-looked-up-again-in-meta"
-			if scans2 < wantScans2 {
-				cls = "unknown-key-not-resolved-through-meta"
-			}
-			return &explore.Finding{Class: cls, Msg: fmt.Sprintf("second request caused %d meta lookups, %d expected\n%s", scans2, wantScans2, p)}
+		// a key inside an already known region is routed from the cache (no lookup at all); a key
+		// outside every known range is resolved through hbase:meta (at least one lookup per region)
+		if wantScans2 == 0 && scans2 != 0 {
+			return &explore.Finding{Class: "known-region-looked-up-again-in-meta", Msg: fmt.Sprintf("second request caused %d meta lookups although its region was known\n%s", scans2, p)}
+		}
+		if scans2 < wantScans2 {
+			return &explore.Finding{Class: "unknown-key-not-resolved-through-meta", Msg: fmt.Sprintf("second request caused %d meta lookups, at least %d needed\n%s", scans2, wantScans2, p)}
 		}
 		if cb := clientBlocked(res); len(cb) > 0 {
 			return &explore.Finding{Class: "client-thread-left-after-close", Msg: fmt.Sprintf("%v\n%s", cb, p)}
